@@ -213,6 +213,43 @@ Proof.
     + rewrite (Ha x z), (Ha y z). f_equal. apply He. exact E.
 Qed.
 
+(* Policy says an absent revision counts as "0" (debversion does that); dpkg compares it as the
+   empty string.  The two conventions give the same ordering. *)
+Lemma lexpad_default_l {A} (c : A -> A -> comparison) (d : A) (b : list A) :
+  cmp_ok c -> lexpad c d [d] b = lexpad c d [] b.
+Proof.
+  intros Hc. set (n := S (length b)).
+  rewrite (lexpad_lexfrom c d Hc n [d] b), (lexpad_lexfrom c d Hc n [] b) by (cbn; lia).
+  reflexivity.
+Qed.
+Lemma lexpad_default_r {A} (c : A -> A -> comparison) (d : A) (a : list A) :
+  cmp_ok c -> lexpad c d a [d] = lexpad c d a [].
+Proof.
+  intros Hc. set (n := S (length a)).
+  rewrite (lexpad_lexfrom c d Hc n a [d]), (lexpad_lexfrom c d Hc n a []) by (cbn; lia).
+  reflexivity.
+Qed.
+
+Lemma part_cmp_zero_empty b :
+  part_cmp zero_str b = part_cmp [] b /\ part_cmp b zero_str = part_cmp b [].
+Proof.
+  unfold part_cmp. change (chunks (length zero_str) zero_str) with [chunk0].
+  change (chunks (length (@nil N)) []) with (@nil (list Z * N)).
+  split; [apply lexpad_default_l|apply lexpad_default_r]; apply chunk_cmp_ok.
+Qed.
+
+Theorem vcmp_absent_revision x y :
+  let dpkg v := mk_version (epoch v) (upstream v) (Some (match revision v with Some r => r | None => [] end)) in
+  vcmp (dpkg x) (dpkg y) = vcmp x y.
+Proof.
+  cbv zeta. unfold vcmp, epoch_of, revision_of. cbn [epoch upstream revision].
+  destruct (match epoch x with Some e => e | None => 0%N end ?= match epoch y with Some e => e | None => 0%N end)%N; try reflexivity.
+  destruct (part_cmp (upstream x) (upstream y)); try reflexivity.
+  destruct (revision x) as [rx|], (revision y) as [ry|]; try reflexivity.
+  - symmetry. apply (part_cmp_zero_empty rx).
+  - symmetry. apply (part_cmp_zero_empty ry).
+Qed.
+
 (* ------------------------------------------------------------------ debversion's loops *)
 Definition nd_part (s : str) : str := fst (span not_digit s).
 Definition after_nd (s : str) : str := snd (span not_digit s).
